@@ -71,6 +71,9 @@ def run(ctx):
     # a literal the error parser fails to consume becomes "data" of the next reply (rules Q3/Q4/Q6 of C09)
     from .c09 import q34
     q34(ctx, R)
+    # lines and literals reach the decoders through the two readers: a line cut at the wrong place is data taken for protocol (M3-M6 of C05)
+    from .c05 import reader_rules
+    reader_rules(ctx, R)
 
 
 def decoder_rules(ctx, R, skip_d3=False):
